@@ -67,6 +67,16 @@ Theorem shift_equivariant : forall v fuel l L n src,
     shift_tres n (bytes L) (tok_loop v fuel l (init_ist pos0 src)).
 Proof. exact shift_equivariant_proof. Qed.
 
+(* ... and from scratch, for any script: consuming the N lines, taking a location and running the script
+   over L ++ src gives the result over src shifted (the text token that contains L itself starts at
+   offset 0 and is not covered: for the tokenizer as a whole this part rests on the correspondence
+   and on the N-shift oracle of the check). *)
+Theorem shift_equivariant_script : forall v L n src ops,
+  complete_lines L n -> 1 + n + count_nl src <= u16_max ->
+  run_ops v (Adv (length L) :: Mark :: ops) (init_ist pos0 (L ++ src)) =
+    shift_ires n (bytes L) (run_ops v (Mark :: ops) (init_ist pos0 src)).
+Proof. exact shift_script_proof. Qed.
+
 (* 4. The side tables: for every sequence of add_* calls and every index (also beyond the end), the
       binary-search lookup returns the record with the greatest first_instruction <= idx ... *)
 Theorem get_line_correct : forall ops idx,
@@ -172,6 +182,7 @@ Print Assumptions interp_offsets_on_boundaries.
 Print Assumptions tokenize_valid_slices.
 Print Assumptions line_is_newline_count.
 Print Assumptions shift_equivariant.
+Print Assumptions shift_equivariant_script.
 Print Assumptions get_line_correct.
 Print Assumptions get_span_correct.
 Print Assumptions get_line_semantic.
